@@ -324,7 +324,7 @@ func genPool(c *lib.Ctx, ci int) (addrs, pubs, txs []input) {
 func genHistory(r *lib.Rng, cf conf, addrs, pubs, txs []input, withMemo bool) []query {
 	hs := cf.heights()
 	var qs []query
-	n := r.Range(16, 30)
+	n := r.Range(14, 26)
 	type topic struct {
 		in input
 		hs []int64
@@ -572,7 +572,7 @@ func run(c *lib.Ctx) {
 		"non-trivial history = measured: it asks one input at two heights whose fresh answers differ (a boundary that matters) and the later question was answered after the earlier one in the same process")
 	c.Assume("the node's current block height (crypto context) is the height the question is about", "sm2/secp256r1 signatures are randomised and therefore not part of the generated transactions")
 	nConf := c.N(3, 6)
-	nHist := c.N(10, 50)
+	nHist := c.N(8, 50)
 	// fresh processes per distinct query: address checks (several drivers may reject one input) get more than the rest
 	R := 2
 	if !c.Quick() {
